@@ -228,6 +228,20 @@ CLAIMS = {
                 'transcribed from doc/dbus-specification.xml (RequestName / ReleaseName).',
         'design': 'DESIGN.md section 3, C04',
     },
+    'C19': {
+        'technique': 'static analysis: who-may-call chain to execv, must-pass-through of every helper check on its '
+                     'success edge (incl. a reviewed whole-string comparator), typestate on the pending-activation '
+                     'flag, condition-atom typestate and loop-exit analysis of the failure fan-out',
+        'text': 'Decides that execv is reachable only via run_launch_helper -> launch_bus_name -> '
+                'exec_for_correct_user and only after environment clearing, whole-argument bus-name validation, '
+                'configuration load, bus-user check, service file lookup, Name == requested name (strcmp), Exec and '
+                'User present, switch_user; that nothing is spawned when the activation was already pending; that a '
+                'failure fails only activations with the same executable, reaches every waiting sender in one '
+                'transaction, and that held messages are replayed in order through dispatch to the new owner.',
+        'note': NOT_DECIDED_COMMON + 'Not decided: process behaviour, timing, exactly-once over histories, service '
+                'file parsing. A name comparator other than strcmp is reported until reviewed (rules/C19.py).',
+        'design': 'DESIGN.md section 3, C19',
+    },
 }
 
 NOT_APPLICABLE = {
